@@ -19,7 +19,7 @@ max_gas exceeds the remaining gas is not executed, the remaining budgets are rec
 transaction as limit.saturating_sub(used), and tx_count grows by checked_add(1) with overflow an
 error; (4) accounting: coinbase / used_gas / used_size are written only in update_execution_data,
 each through checked_add whose overflow is an error, with the fee / gas returned by total_fee_paid,
-which are also the values stored in the transaction status.
+which are also the values stored in the transaction status. The found_mint check is either in the common prologue of execute_transaction or the first thing each execution arm does (a second mint after the mint is refused).
 """
 NOT_DECIDED = """That per-transaction fees are numerically right; size-limit enforcement for sources that
 return oversized transactions is a value question beyond clause 3."""
